@@ -782,12 +782,12 @@ pub fn run(tier: &str, seed: u64, s: &mut Sink) {
     for n in [12usize, 13, 14, 20] {
         emit_cluster(s, "identical-points", &same[..n]);
     }
-    let n_clouds = if thorough { 1500 } else { 260 };
+    let n_clouds = if thorough { 3000 } else { 500 };
     for k in 0..n_clouds {
         let max_n = if thorough {
-            match k % 50 {
+            match k % 25 {
                 0 => 2000,
-                1..=5 => 800,
+                1..=4 => 800,
                 _ => 300,
             }
         } else {
